@@ -233,6 +233,27 @@ static PART_COUNTER: AtomicUsize = AtomicUsize::new(0);
 /// subject can loop forever without passing a fuel tick (the assembler).
 pub static CASE_ALARM_S: AtomicUsize = AtomicUsize::new(0);
 
+/// Watchdog per case: the check's own setting, else 90 s (no case of any check needs more than a
+/// few seconds; subprocesses have their own 60 s limit).
+fn case_alarm() -> u32 {
+    match CASE_ALARM_S.load(Ordering::Relaxed) as u32 {
+        0 => 90,
+        s => s,
+    }
+}
+
+/// A worker may grow by 3 GiB beyond what it inherited: a runaway allocation in the code under
+/// test then aborts this worker (reported as a death at that case) instead of exhausting the host.
+fn limit_address_space() {
+    let vm_kib: u64 = std::fs::read_to_string("/proc/self/status")
+        .ok()
+        .and_then(|s| s.lines().find(|l| l.starts_with("VmSize:")).and_then(|l| l.split_whitespace().nth(1).and_then(|v| v.parse().ok())))
+        .unwrap_or(4 << 20);
+    let lim = (vm_kib << 10) + (3u64 << 30);
+    let rl = libc::rlimit { rlim_cur: lim, rlim_max: lim };
+    unsafe { libc::setrlimit(libc::RLIMIT_AS, &rl) };
+}
+
 /// What happened to a worker process that did not finish.
 #[derive(Debug, Clone)]
 pub struct WorkerDeath {
@@ -299,7 +320,8 @@ pub fn pooled<A: Wire>(
                     }
                     POOL_ENV.with(|p| p.set(Some((env.stack, env.init_features))));
                 }
-                let alarm = CASE_ALARM_S.load(Ordering::Relaxed) as u32;
+                let alarm = case_alarm();
+                limit_address_space();
                 let mut acc = init();
                 loop {
                     let start = slots[0].fetch_add(chunk, Ordering::SeqCst);
@@ -356,10 +378,38 @@ pub fn pooled<A: Wire>(
                 let extra = std::fs::read_to_string(part(k).with_extension("err")).unwrap_or_default();
                 format!("exit {} {}", libc::WEXITSTATUS(status), extra)
             };
-            if at != usize::MAX {
+            // Is it the case or the machine? Run that one case again in a process of its own: if
+            // it dies again, the code under test cannot finish that case (a hang caught by the
+            // watchdog, an allocation abort, a stack overflow) and the check reports it as a
+            // violation; if it survives, the death was ours and no verdict may be given.
+            let confirmed = at != usize::MAX && {
+                let pid = unsafe { libc::fork() };
+                assert!(pid >= 0, "fork failed");
+                if pid == 0 {
+                    let r = guard(|| {
+                        if let Some(env) = env {
+                            if env.init_features {
+                                let features: lace::features::Features = if env.stack { "stack" } else { "" }.parse().unwrap();
+                                lace::features::init(features);
+                            }
+                            POOL_ENV.with(|p| p.set(Some((env.stack, env.init_features))));
+                        }
+                        limit_address_space();
+                        unsafe { libc::alarm(case_alarm()) };
+                        let mut acc = init();
+                        body(&mut acc, at);
+                    });
+                    unsafe { libc::_exit(if r.is_ok() { 0 } else { 4 }) };
+                }
+                let mut st: libc::c_int = 0;
+                let r = unsafe { libc::waitpid(pid, &mut st, 0) };
+                !(r == pid && libc::WIFEXITED(st) && libc::WEXITSTATUS(st) == 0)
+            };
+            if confirmed {
                 DEATHS.with(|d| d.borrow_mut().push(WorkerDeath { index: at, status: what.clone() }));
+            } else {
+                machinery.push(format!("worker {k} died ({what}) at index {at}; the case alone did not reproduce it"));
             }
-            machinery.push(format!("worker {k} died ({what}) at index {at}"));
         }
         let _ = std::fs::remove_file(part(k));
         let _ = std::fs::remove_file(part(k).with_extension("err"));
